@@ -699,8 +699,9 @@ impl Inner {
 
         // A pending-open stream of a server is a pushed stream whose
         // PUSH_PROMISE was already written: for the peer it is reserved, not
-        // idle, and RST_STREAM is how the peer refuses the push.
-        if stream.is_pending_open && !self.counts.peer().is_server() {
+        // idle, and RST_STREAM is how the peer refuses the push. While the
+        // PUSH_PROMISE is still queued the stream is idle for the peer.
+        if (stream.is_pending_open && !self.counts.peer().is_server()) || stream.is_pending_push {
             proto_err!(conn: "recv_reset: received frame on idle stream {:?}", id);
             return Err(Error::library_go_away(Reason::PROTOCOL_ERROR));
         }
@@ -738,7 +739,9 @@ impl Inner {
             // considers closed. It's ok...
             if let Some(mut stream) = self.store.find_mut(&id) {
                 // (a server's pending-open stream is reserved, not idle: see recv_reset)
-                if stream.is_pending_open && !self.counts.peer().is_server() {
+                if (stream.is_pending_open && !self.counts.peer().is_server())
+                    || stream.is_pending_push
+                {
                     proto_err!(conn: "recv_window_update: received frame on idle stream {:?}", id);
                     return Err(Error::library_go_away(Reason::PROTOCOL_ERROR));
                 }
